@@ -2,8 +2,8 @@
 From Coq Require Import ZArith List Bool.
 From HV Require Import Prelude.Py Prelude.State Prelude.Utf8 Spec.DynTable Spec.SDecoder.
 From HV Require Import Model.Data Model.Table Model.Decoder Model.Encoder Model.Rel Model.RelEnc.
+From HV Require Import Model.Histories.
 From HV Require Import Proofs.Table Proofs.DecoderRefine Proofs.EncoderMeaning Proofs.Lockstep.
-From HV Require Props.C10.
 Import ListNotations.
 Open Scope Z_scope.
 
@@ -14,22 +14,9 @@ Open Scope Z_scope.
     of encoder table-size changes between blocks that the decoder's permitted maximum [Lim]
     admits, in raw and in text mode (text mode requires the strings to BE text), provided the
     decoder's list-size limit [LL] admits the lists (C07 requires rejection otherwise). *)
-Fixpoint round_trips (d : decoder) (e : encoder) (ops : list (eop * bool)) : Prop :=
-  match ops with
-  | [] => True
-  | (ESetSize v, _) :: r => round_trips d (snd (estep e (ESetSize v))) r
-  | (EEncode hs h, raw) :: r =>
-      match estep e (EEncode hs h) with
-      | (Ok w, e') =>
-          match Decoder_decode d w raw with
-          | (Ok hs', d') => map nv_of_header hs' = map nv_of_field hs /\ round_trips d' e' r
-          | (Err _, _) => False
-          end
-      | (Err _, _) => False
-      end
-  end.
+(** [round_trips], [pop_ok]: Model/Histories.v *)
 Theorem C01_round_trip : forall Lim LL ops, 4096 <= Lim < BIG -> Z.abs LL < 10 ^ 4300 ->
-  Forall (C10.pop_ok Lim LL) ops ->
+  Forall (pop_ok Lim LL) ops ->
   round_trips (set_d_max_allowed Lim (Decoder_init LL)) Encoder_init ops.
 Proof. exact round_trip_history. Qed.
 
